@@ -135,9 +135,14 @@ fn tac(tag: &Tag, tokens: &mut Tokenizer) -> Result<Val, Error> {
 }
 
 fn doctype(name: &str, external: Option<ExternalId>, internal: Option<&str>) -> Val {
+    // quote a literal, using single quotes if it contains double quotes
+    let lit = |s: &str| {
+        let quote = if s.contains('"') { '\'' } else { '"' };
+        format!("{quote}{s}{quote}")
+    };
     let external = external.map(|ext| match ext {
-        ExternalId::System(system) => format!("SYSTEM {system}"),
-        ExternalId::Public(pub_id, system) => format!("PUBLIC {pub_id} {system}"),
+        ExternalId::System(system) => format!("SYSTEM {}", lit(&system)),
+        ExternalId::Public(pub_id, system) => format!("PUBLIC {} {}", lit(&pub_id), lit(&system)),
     });
     make_obj([
         ("name", Some(name.to_owned())),
@@ -168,7 +173,10 @@ fn parse(tk: Token, tokens: &mut Tokenizer) -> Result<Val, Error> {
             make_obj([
                 ("version", Some(ss_val(version))),
                 ("encoding", encoding.map(ss_val)),
-                ("standalone", standalone.map(|b| b.into())),
+                (
+                    "standalone",
+                    standalone.map(|b| if b { "yes" } else { "no" }.to_owned().into()),
+                ),
             ]),
         ),
         Token::ProcessingInstruction {
